@@ -621,6 +621,47 @@ for _parent in ARITY:
     make_tree(_parent)
 
 
+TIGHT_OPS = [ast.Add, ast.Sub, ast.Mul, ast.Div, ast.Mod, ast.Less, ast.LessEq, ast.Greater, ast.GreaterEq, ast.Equal,
+             ast.NotEqual, ast.Match, ast.NotMatch]
+TIGHT_LEAVES = [lambda: const(2020), lambda: const(1), lambda: const(5), lambda: col('x'), lambda: const(D('2.5')),
+                lambda: ast.Neg(const(1)), lambda: ast.Neg(col('y')), lambda: const('s'), lambda: const(datetime.date(2020, 1, 5)),
+                lambda: func('f', col('x')), lambda: ast.Attribute(col('x'), 'y')]
+
+
+def make_tight(o1):
+    op1 = TIGHT_OPS[o1]
+
+    @cond(f'C06.tight.{op1.__name__}', quick=240, thorough=600,
+          bounds=f'(l {printer.BINOPS[op1][0]} m) OP2 r and l {printer.BINOPS[op1][0]} (m OP2 r) for OP2 each of the {len(TIGHT_OPS)} '
+                 f'symbolic binary operators over {len(TIGHT_LEAVES)} leaf kinds (4-digit and 1-digit integers, decimal, column, '
+                 'negated constant / column, string, date, call, attribute; operand triples drawn as (i, i+1, i+2) and (i, i, i+3) '
+                 'from the leaf list), printed without any whitespace around the operators (2020-1-5, x<=-1, 2.5*-y): both '
+                 'parsers return the tree',
+          symbolic='(none)', enumerated='second operator, leaf offset, grouping, leaf pattern',
+          params={'o2': int, 'leaf': int, 'right': bool, 'pat': bool}, group='C06.tight',
+          note='exhaustive inside the bound; the solver only enumerates (TatSu cannot run on symbolic text); one-digit integers '
+               'only, so that no digit run produced by the tight printing has the shape of a date literal')
+    def tight(o2, leaf, right, pat):
+        o2 = enum_int(o2, 0, len(TIGHT_OPS) - 1)
+        leaf = enum_int(leaf, 0, len(TIGHT_LEAVES) - 1)
+        right, pat = bool(right), bool(pat)
+
+        def run():
+            n = len(TIGHT_LEAVES)
+            idx = (leaf, leaf, leaf + 3) if pat else (leaf, leaf + 1, leaf + 2)
+            l, m, r = (TIGHT_LEAVES[i % n]() for i in idx)
+            op2 = TIGHT_OPS[o2]
+            node = op1(l, op2(m, r)) if right else op2(op1(l, m), r)
+            stmt = sel([target(node, 'v')], 't')
+            text = printer.select(stmt, Style(False, 0, ' ', tight=True))
+            return roundtrip(stmt, text)
+        return native(run) or 'ok'
+
+
+for _o1 in range(len(TIGHT_OPS)):
+    make_tight(_o1)
+
+
 COMPARISONS = ['<', '<=', '>', '>=', '=', '!=', '~', '!~', 'IN', 'NOT IN']
 
 
